@@ -735,3 +735,88 @@ func extractOf(v ssa.Value, i int) ssa.Value {
 	}
 	return nil
 }
+
+// loopControlDeps: the branches inside loop l on which block eb is control dependent within one iteration:
+// from the branch eb can be reached, and it can be avoided (the header is reached again, or the loop left,
+// without passing eb). Unlike blockGuards this sees short-circuit conditions, whose body block has several
+// predecessors. val is the outcome of the condition on the way to eb when only one successor leads there
+// (known), otherwise both outcomes can lead to eb.
+type cdep struct {
+	ifi   *ssa.If
+	val   bool
+	known bool
+}
+
+func (d cdep) guard() guard { return guard{d.ifi.Cond, d.val, d.ifi} }
+
+func loopControlDeps(l *loopInfo, eb *ssa.BasicBlock) []cdep {
+	var out []cdep
+	for _, b := range eb.Parent().Blocks {
+		if !l.body[b] || b == eb || len(b.Instrs) == 0 {
+			continue
+		}
+		ifi, ok := b.Instrs[len(b.Instrs)-1].(*ssa.If)
+		if !ok {
+			continue
+		}
+		avoidE := false
+		var reach [2]bool
+		for i, s := range b.Succs {
+			if s == eb || (l.body[s] && s != l.head && reachesWithout(s, eb, l.head)) {
+				reach[i] = true
+			}
+			if s != eb && (s == l.head || !l.body[s] || reachesWithout(s, l.head, eb)) {
+				avoidE = true
+			}
+		}
+		if (reach[0] || reach[1]) && avoidE {
+			out = append(out, cdep{ifi, reach[0], reach[0] != reach[1]})
+		}
+	}
+	return out
+}
+
+// resolveCell maps a load from a local cell (a named result or variable spilled because of defer/closures)
+// to the SSA value that the most recent store put there, when that store is found by walking back through
+// the block and its chain of single predecessors; other values are returned unchanged. Two loads of one
+// cell are the same value only if they resolve to the same store - comparing loads structurally mixes up
+// facts about different moments.
+func resolveCell(v ssa.Value) ssa.Value {
+	for i := 0; i < 8; i++ {
+		u, ok := v.(*ssa.UnOp)
+		if !ok || u.Op != token.MUL {
+			return v
+		}
+		al, ok := u.X.(*ssa.Alloc)
+		if !ok {
+			return v
+		}
+		b := u.Block()
+		idx := -1
+		for k, in := range b.Instrs {
+			if in == ssa.Instruction(u) {
+				idx = k
+			}
+		}
+		var found ssa.Value
+		for hops := 0; hops < 12 && found == nil; hops++ {
+			for k := idx - 1; k >= 0; k-- {
+				if st, ok := b.Instrs[k].(*ssa.Store); ok && st.Addr == ssa.Value(al) {
+					found = st.Val
+					break
+				}
+				// a call may write the cell only if its address escaped: cells here are captured by defers at most
+			}
+			if found != nil || len(b.Preds) != 1 {
+				break
+			}
+			b = b.Preds[0]
+			idx = len(b.Instrs)
+		}
+		if found == nil {
+			return v
+		}
+		v = found
+	}
+	return v
+}
